@@ -2,76 +2,6 @@ import JunoModel.C09.ProofsPage
 /-! C09 — helper lemmas, part 3: the index invariant and its preservation by every operation. -/
 namespace Juno.C09
 
-/-! ### Window alignment arithmetic -/
-
-/-- `x - x % W`: first block of the window containing `x`. -/
-def al (W x : Nat) : Nat := x - x % W
-
-theorem al_unique (W w x : Nat) (hw : w % W = 0) (h1 : w ≤ x) (h2 : x < w + W) : al W x = w := by
-  obtain ⟨r, rfl⟩ : ∃ r, x = w + r := ⟨x - w, by omega⟩
-  have hr : r < W := by omega
-  have : (w + r) % W = r := by
-    rw [Nat.add_mod, hw, Nat.zero_add, Nat.mod_mod, Nat.mod_eq_of_lt hr]
-  unfold al; rw [this]; omega
-
-theorem al_le (W x : Nat) : al W x ≤ x := Nat.sub_le _ _
-
-theorem al_add_mod (W x : Nat) : al W x + x % W = x := by
-  unfold al; have := Nat.mod_le x W; omega
-
-theorem al_mod (W x : Nat) : al W x % W = 0 := by
-  have h := Nat.div_add_mod x W
-  have : al W x = W * (x / W) := by unfold al; omega
-  rw [this]; exact Nat.mul_mod_right _ _
-
-theorem lt_al_add (W x : Nat) (hW : 1 ≤ W) : x < al W x + W := by
-  have := al_add_mod W x
-  have := Nat.mod_lt x (show W > 0 by omega)
-  omega
-
-theorem al_eq_self (W x : Nat) (h : x % W = 0) : al W x = x := by unfold al; omega
-
-theorem al_succ_same (W x : Nat) (h : x % W + 1 < W) : al W (x + 1) = al W x := by
-  apply al_unique W _ _ (al_mod W x)
-  · have := al_le W x; omega
-  · have := al_add_mod W x; omega
-
-theorem al_succ_roll (W x : Nat) (h : x % W + 1 = W) : al W (x + 1) = x + 1 := by
-  have h1 : (x + 1) % W = 0 := by
-    have := al_add_mod W x
-    have e : x + 1 = al W x + W := by omega
-    rw [e, Nat.add_mod_right]; exact al_mod W x
-  exact al_eq_self W _ h1
-
-theorem al_pred_same (W x : Nat) (hW : 1 ≤ W) (h : x % W ≠ 0) : al W (x - 1) = al W x := by
-  apply al_unique W _ _ (al_mod W x)
-  · have := al_add_mod W x; omega
-  · have := lt_al_add W x hW; omega
-
-theorem sub_mod_self (W x : Nat) (h : W ≤ x) : (x - W) % W = x % W := by
-  have h1 : (x - W + W) % W = (x - W) % W := Nat.add_mod_right _ _
-  have h2 : x - W + W = x := by omega
-  rw [← h1, h2]
-
-theorem ge_of_mod_zero (W x : Nat) (h0 : x % W = 0) (h1 : 1 ≤ x) : W ≤ x := by
-  rcases Nat.lt_or_ge x W with h | h
-  · rw [Nat.mod_eq_of_lt h] at h0; omega
-  · exact h
-
-theorem al_pred_cross (W x : Nat) (hW : 1 ≤ W) (h0 : x % W = 0) (h1 : 1 ≤ x) : al W (x - 1) = x - W := by
-  have hge := ge_of_mod_zero W x h0 h1
-  apply al_unique W
-  · rw [sub_mod_self W x hge]; exact h0
-  · omega
-  · omega
-
-/-- two aligned numbers that are less than `W` apart are equal -/
-theorem aligned_lt (W a b : Nat) (ha : a % W = 0) (hb : b % W = 0) (h : a < b) : a + W ≤ b := by
-  rcases Nat.lt_or_ge b (a + W) with h' | h'
-  · have := al_unique W a b ha (by omega) h'
-    rw [al_eq_self W b hb] at this; omega
-  · exact h'
-
 /-! ### Finite maps -/
 
 theorem lookup_put (m : WinMap) (k w : Nat) (v : Agg) :
@@ -111,6 +41,21 @@ theorem lookup_del (m : WinMap) (k w : Nat) (h : w ≠ k) : (m.del k).lookup w =
 theorem mem_del_iff (m : WinMap) (k : Nat) (x : Nat × Agg) : x ∈ m.del k ↔ x ∈ m ∧ x.1 ≠ k := by
   simp [WinMap.del, List.mem_filter]
 
+theorem lookup_filter_key (m : WinMap) (q : Nat → Bool) (w : Nat) (h : q w = true) :
+    (m.filter (fun x => q x.1)).lookup w = m.lookup w := by
+  induction m with
+  | nil => simp
+  | cons x xs ih =>
+    obtain ⟨k', v'⟩ := x
+    by_cases hk : q k' = true
+    · simp only [List.filter, hk, List.lookup]
+      cases hw : w == k' <;> simp [ih]
+    · have hk' : q k' = false := by simpa using hk
+      have hw : (w == k') = false := by
+        simp only [beq_eq_false_iff_ne, ne_eq]; intro e; subst e; rw [h] at hk'; cases hk'
+      simp only [List.filter, hk', List.lookup, hw]
+      exact ih
+
 /-! ### Aggregated filters -/
 
 theorem test_insert (W : Nat) (a a' : Agg) (bloom : List Item) (b : Nat) (h : a.insert W bloom b = some a') :
@@ -145,29 +90,37 @@ theorem test_clear (W : Nat) (a a' : Agg) (b : Nat) (h : a.clear W b = some a') 
   · cases h
 
 /-- `a` has every header-bloom item of every chain block of its window below `nx`. -/
-def GoodBelow (chain : List Block) (W : Nat) (a : Agg) (nx : Nat) : Prop :=
-  ∀ b blk, a.from_ ≤ b → b < a.from_ + W → b < nx → chain[b]? = some blk → ∀ it ∈ blk.bloom, a.test b it = true
+def GoodBelow (chain : List Block) (W floor : Nat) (a : Agg) (nx : Nat) : Prop :=
+  ∀ b blk, a.from_ ≤ b → b < a.from_ + W → floor ≤ b → b < nx → chain[b]? = some blk →
+    ∀ it ∈ blk.bloom, a.test b it = true
 
-theorem good_of_goodBelow (chain : List Block) (W : Nat) (a : Agg) (nx : Nat)
-    (h : GoodBelow chain W a nx) (hn : chain.length ≤ nx ∨ a.from_ + W ≤ nx) : Good chain W a.from_ a := by
-  intro b blk h1 h2 hb it hit
+theorem good_floor_mono (chain : List Block) (W f1 f2 w : Nat) (a : Agg) (h : Good chain W f1 w a) (hf : f1 ≤ f2) :
+    Good chain W f2 w a := fun b blk h1 h2 h3 hb it hit => h b blk h1 h2 (by omega) hb it hit
+
+theorem goodBelow_floor_mono (chain : List Block) (W f1 f2 : Nat) (a : Agg) (nx : Nat) (h : GoodBelow chain W f1 a nx)
+    (hf : f1 ≤ f2) : GoodBelow chain W f2 a nx :=
+  fun b blk h1 h2 h3 h4 hb it hit => h b blk h1 h2 (by omega) h4 hb it hit
+
+theorem good_of_goodBelow (chain : List Block) (W floor : Nat) (a : Agg) (nx : Nat)
+    (h : GoodBelow chain W floor a nx) (hn : chain.length ≤ nx ∨ a.from_ + W ≤ nx) : Good chain W floor a.from_ a := by
+  intro b blk h1 h2 h3 hb it hit
   have : b < chain.length := by
     rcases Nat.lt_or_ge b chain.length with h' | h'
     · exact h'
     · rw [List.getElem?_eq_none h'] at hb; cases hb
-  exact h b blk h1 h2 (by omega) hb it hit
+  exact h b blk h1 h2 h3 (by omega) hb it hit
 
 /-! ### The index part of the invariant, as a function of how far the running filter has got -/
 
-structure IdxInv (W : Nat) (chain : List Block) (L j : Nat) (r : Agg) (p : WinMap) : Prop where
+structure IdxInv (W : Nat) (chain : List Block) (floor L j : Nat) (r : Agg) (p : WinMap) : Prop where
   from_eq : r.from_ = al W j
-  running : GoodBelow chain W r j
-  pers_keys : ∀ w a, (w, a) ∈ p → a.from_ = w ∧ w % W = 0 ∧ w + W ≤ L ∧ Good chain W w a
-  pers_avail : ∀ w, w % W = 0 → w + W ≤ j → ∃ a, p.lookup w = some a
+  running : GoodBelow chain W floor r j
+  pers_keys : ∀ w a, (w, a) ∈ p → a.from_ = w ∧ w % W = 0 ∧ w + W ≤ L ∧ Good chain W floor w a
+  pers_avail : ∀ w, w % W = 0 → al W floor ≤ w → w + W ≤ j → ∃ a, p.lookup w = some a
 
-theorem insertRun_step (W : Nat) (hW : 1 ≤ W) (chain : List Block) (L j : Nat) (r : Agg) (p : WinMap) (blk : Block)
-    (hi : IdxInv W chain L j r p) (hj : j < L) (hb : chain[j]? = some blk) :
-    ∃ r' p', insertRun W r p blk.bloom j = .ok (r', j + 1, p') ∧ IdxInv W chain L (j + 1) r' p' := by
+theorem insertRun_step (W : Nat) (hW : 1 ≤ W) (chain : List Block) (floor L j : Nat) (r : Agg) (p : WinMap) (blk : Block)
+    (hi : IdxInv W chain floor L j r p) (hj : j < L) (hb : chain[j]? = some blk) :
+    ∃ r' p', insertRun W r p blk.bloom j = .ok (r', j + 1, p') ∧ IdxInv W chain floor L (j + 1) r' p' := by
   have hfj := al_add_mod W j
   have hlt := Nat.mod_lt j (show W > 0 by omega)
   have hin : r.inRange W j = true := by
@@ -175,13 +128,13 @@ theorem insertRun_step (W : Nat) (hW : 1 ≤ W) (chain : List Block) (L j : Nat)
   have hins : r.insert W blk.bloom j = some { r with cols := if blk.bloom.isEmpty then r.cols else (j, blk.bloom) :: r.cols } := by
     simp [Agg.insert, hin]
   obtain ⟨hf', hnew, hmono⟩ := test_insert W r _ blk.bloom j hins
-  have hgb : GoodBelow chain W { r with cols := if blk.bloom.isEmpty then r.cols else (j, blk.bloom) :: r.cols } (j + 1) := by
-    intro b blk' h1 h2 h3 hb' it hit
+  have hgb : GoodBelow chain W floor { r with cols := if blk.bloom.isEmpty then r.cols else (j, blk.bloom) :: r.cols } (j + 1) := by
+    intro b blk' h1 h2 hfb h3 hb' it hit
     by_cases hbj : b = j
     · subst hbj
       rw [hb] at hb'; cases hb'
       exact hnew it hit
-    · exact hmono b it (hi.running b blk' h1 h2 (by omega) hb' it hit)
+    · exact hmono b it (hi.running b blk' h1 h2 hfb (by omega) hb' it hit)
   unfold insertRun
   simp only [hins]
   by_cases hroll : j % W + 1 = W
@@ -191,7 +144,7 @@ theorem insertRun_step (W : Nat) (hW : 1 ≤ W) (chain : List Block) (L j : Nat)
     refine ⟨Agg.fresh (j + 1), p.put r.from_ { r with cols := if blk.bloom.isEmpty then r.cols else (j, blk.bloom) :: r.cols }, rfl, ?_⟩
     have hal := al_succ_roll W j hroll
     refine ⟨by simp [Agg.fresh, hal], ?_, ?_, ?_⟩
-    · intro b _ h1 _ h3 _ _ _
+    · intro b _ h1 _ _ h3 _ _ _
       simp only [Agg.fresh] at h1; omega
     · intro w a hm
       rcases mem_put p _ _ (w, a) hm with h | h
@@ -199,16 +152,16 @@ theorem insertRun_step (W : Nat) (hW : 1 ≤ W) (chain : List Block) (L j : Nat)
         refine ⟨rfl, ?_, ?_, ?_⟩
         · rw [hi.from_eq]; exact al_mod W j
         · rw [hi.from_eq]; omega
-        · have := good_of_goodBelow chain W _ (j + 1) hgb (Or.inr (by show r.from_ + W ≤ j + 1; rw [hi.from_eq]; omega))
+        · have := good_of_goodBelow chain W floor _ (j + 1) hgb (Or.inr (by show r.from_ + W ≤ j + 1; rw [hi.from_eq]; omega))
           exact this
       · exact hi.pers_keys w a h
-    · intro w hw hle
+    · intro w hw hfw hle
       rw [lookup_put]
       by_cases hwk : w = r.from_
       · simp [hwk]
       · have : (w == r.from_) = false := by simpa using hwk
         simp only [this, Bool.false_eq_true, if_false]
-        apply hi.pers_avail w hw
+        apply hi.pers_avail w hw hfw
         -- w + W ≤ j + 1 = al j + W and w ≠ al j, both aligned
         rw [hi.from_eq] at hwk
         rcases Nat.lt_or_ge w (al W j) with h | h
@@ -221,8 +174,8 @@ theorem insertRun_step (W : Nat) (hW : 1 ≤ W) (chain : List Block) (L j : Nat)
     refine ⟨_, p, rfl, ?_⟩
     have hal := al_succ_same W j (by omega)
     refine ⟨by rw [hal]; exact hi.from_eq, hgb, hi.pers_keys, ?_⟩
-    intro w hw hle
-    apply hi.pers_avail w hw
+    intro w hw hfw hle
+    apply hi.pers_avail w hw hfw
     -- w + W ≤ j + 1 but (j+1) is not aligned
     rcases Nat.lt_or_ge j (w + W) with h | h
     · exfalso
@@ -233,24 +186,25 @@ theorem insertRun_step (W : Nat) (hW : 1 ≤ W) (chain : List Block) (L j : Nat)
       omega
     · exact h
 
-theorem fill_spec (W : Nat) (hW : 1 ≤ W) (chain : List Block) (L : Nat) (hL : L ≤ chain.length) (m : Nat) :
-    ∀ (j : Nat) (r : Agg) (nx : Nat) (p : WinMap), j + m = L → IdxInv W chain L j r p → (m = 0 → nx = j) →
-      ∃ r' p', fill W chain (List.range' j m) r nx p = .ok (r', L, p') ∧ IdxInv W chain L L r' p' := by
+theorem fill_spec (W : Nat) (hW : 1 ≤ W) (chain : List Block) (floor L : Nat) (hL : L ≤ chain.length) (m : Nat) :
+    ∀ (j : Nat) (r : Agg) (nx : Nat) (p : WinMap), j + m = L → floor ≤ j → IdxInv W chain floor L j r p → (m = 0 → nx = j) →
+      ∃ r' p', fill W chain floor (List.range' j m) r nx p = .ok (r', L, p') ∧ IdxInv W chain floor L L r' p' := by
   induction m with
   | zero =>
-    intro j r nx p hjm hi hnx
+    intro j r nx p hjm _ hi hnx
     have : j = L := by omega
     subst this
     exact ⟨r, p, by simp [fill, hnx rfl], hi⟩
   | succ m ih =>
-    intro j r nx p hjm hi _
+    intro j r nx p hjm hfj hi _
     have hj : j < chain.length := by omega
     have hget : chain[j]? = some chain[j] := List.getElem?_eq_getElem hj
-    obtain ⟨r', p', hrun, hi'⟩ := insertRun_step W hW chain L j r p chain[j] hi (by omega) hget
+    obtain ⟨r', p', hrun, hi'⟩ := insertRun_step W hW chain floor L j r p chain[j] hi (by omega) hget
     rw [List.range'_succ]
     unfold fill
-    simp only [hget, hrun]
-    exact ih (j + 1) r' (j + 1) p' (by omega) hi' (fun _ => rfl)
+    have hnp : ¬ j + blockHashLag < floor := by omega
+    simp only [hnp, if_false, hget, hrun]
+    exact ih (j + 1) r' (j + 1) p' (by omega) (by omega) hi' (fun _ => rfl)
 
 /-! ### Chains growing and shrinking -/
 
@@ -264,26 +218,27 @@ theorem getElem?_dropLast_some (chain : List Block) (b : Nat) (blk : Block) (h :
   · exact ⟨h, by omega⟩
   · cases h
 
-theorem good_append (chain : List Block) (blk : Block) (W w : Nat) (a : Agg) (h : Good chain W w a)
-    (hc : w + W ≤ chain.length) : Good (chain ++ [blk]) W w a := by
-  intro b x h1 h2 hb it hit
-  rw [getElem?_append_lt chain blk b (by omega)] at hb
-  exact h b x h1 h2 hb it hit
-
-theorem goodBelow_append (chain : List Block) (blk : Block) (W : Nat) (a : Agg) (nx : Nat)
-    (h : GoodBelow chain W a nx) (hc : nx ≤ chain.length) : GoodBelow (chain ++ [blk]) W a nx := by
+theorem good_append (chain : List Block) (blk : Block) (W fl w : Nat) (a : Agg) (h : Good chain W fl w a)
+    (hc : w + W ≤ chain.length) : Good (chain ++ [blk]) W fl w a := by
   intro b x h1 h2 h3 hb it hit
   rw [getElem?_append_lt chain blk b (by omega)] at hb
   exact h b x h1 h2 h3 hb it hit
 
-theorem good_dropLast (chain : List Block) (W w : Nat) (a : Agg) (h : Good chain W w a) : Good chain.dropLast W w a := by
-  intro b x h1 h2 hb it hit
-  exact h b x h1 h2 (getElem?_dropLast_some chain b x hb).1 it hit
+theorem goodBelow_append (chain : List Block) (blk : Block) (W fl : Nat) (a : Agg) (nx : Nat)
+    (h : GoodBelow chain W fl a nx) (hc : nx ≤ chain.length) : GoodBelow (chain ++ [blk]) W fl a nx := by
+  intro b x h1 h2 h3 h4 hb it hit
+  rw [getElem?_append_lt chain blk b (by omega)] at hb
+  exact h b x h1 h2 h3 h4 hb it hit
 
-theorem goodBelow_dropLast (chain : List Block) (W : Nat) (a : Agg) (nx : Nat) (h : GoodBelow chain W a nx) :
-    GoodBelow chain.dropLast W a nx := by
+theorem good_dropLast (chain : List Block) (W fl w : Nat) (a : Agg) (h : Good chain W fl w a) :
+    Good chain.dropLast W fl w a := by
   intro b x h1 h2 h3 hb it hit
   exact h b x h1 h2 h3 (getElem?_dropLast_some chain b x hb).1 it hit
+
+theorem goodBelow_dropLast (chain : List Block) (W fl : Nat) (a : Agg) (nx : Nat) (h : GoodBelow chain W fl a nx) :
+    GoodBelow chain.dropLast W fl a nx := by
+  intro b x h1 h2 h3 h4 hb it hit
+  exact h b x h1 h2 h3 h4 (getElem?_dropLast_some chain b x hb).1 it hit
 
 theorem chainWF_dropLast (chain : List Block) (h : ChainWF chain) : ChainWF chain.dropLast :=
   fun blk hb => h blk (List.mem_of_mem_take (by rw [← List.dropLast_eq_take]; exact hb))
@@ -294,26 +249,27 @@ structure Inv (cfg : Cfg) (n : Node) : Prop where
   wf : ChainWF n.chain
   bound : n.chain.length < 2 ^ 64
   next_eq : n.next = n.chain.length
-  idx : IdxInv cfg.W n.chain n.chain.length n.chain.length n.running n.persisted
-  cache : ∀ w a, (w, a) ∈ n.cache → w % cfg.W = 0 ∧ w + cfg.W ≤ n.chain.length ∧ Good n.chain cfg.W w a
+  floor_lt : n.floor = 0 ∨ n.floor < n.chain.length
+  idx : IdxInv cfg.W n.chain n.floor n.chain.length n.chain.length n.running n.persisted
+  cache : ∀ w a, (w, a) ∈ n.cache → w % cfg.W = 0 ∧ w + cfg.W ≤ n.chain.length ∧ Good n.chain cfg.W n.floor w a
   snap : ∀ a nx, n.snapshot = some (a, nx) →
-    nx ≤ n.chain.length ∧ a.from_ = al cfg.W nx ∧ GoodBelow n.chain cfg.W a nx
+    nx ≤ n.chain.length ∧ a.from_ = al cfg.W nx ∧ GoodBelow n.chain cfg.W n.floor a nx
 
 theorem inv_init (cfg : Cfg) (hW : 1 ≤ cfg.W) : Inv cfg Node.init := by
-  refine ⟨?_, by simp [Node.init], rfl, ⟨?_, ?_, ?_, ?_⟩, ?_, ?_⟩
+  refine ⟨?_, by simp [Node.init], rfl, Or.inl rfl, ⟨?_, ?_, ?_, ?_⟩, ?_, ?_⟩
   · intro blk h; simp [Node.init] at h
   · simp [Node.init, Agg.fresh, al]
-  · intro b _ _ _ h3 _ _ _; simp [Node.init] at h3
+  · intro b _ _ _ _ h3 _ _ _; simp [Node.init] at h3
   · intro w a h; simp [Node.init] at h
-  · intro w _ h; simp [Node.init] at h; omega
+  · intro w _ _ h; simp [Node.init] at h; omega
   · intro w a h; simp [Node.init] at h
   · intro a nx h; simp [Node.init] at h
 
 theorem inv_servable (cfg : Cfg) (hW : 1 ≤ cfg.W) (n : Node) (h : Inv cfg n) (hi : Nat) (hhi : hi < n.chain.length) :
     Servable cfg n hi ∧ CacheGood cfg n n.cache := by
   refine ⟨⟨?_, ?_⟩, fun w a hm => (h.cache w a hm).2.2⟩
-  · exact good_of_goodBelow n.chain cfg.W n.running n.chain.length h.idx.running (Or.inl (Nat.le_refl _))
-  · intro w hw hle hne
+  · exact good_of_goodBelow n.chain cfg.W n.floor n.running n.chain.length h.idx.running (Or.inl (Nat.le_refl _))
+  · intro w hw hfw hle hne
     rw [h.idx.from_eq] at hne
     have hlt := lt_al_add cfg.W n.chain.length hW
     have hal := al_le cfg.W n.chain.length
@@ -322,7 +278,7 @@ theorem inv_servable (cfg : Cfg) (hW : 1 ≤ cfg.W) (n : Node) (h : Inv cfg n) (
       · have := aligned_lt cfg.W w _ hw (al_mod cfg.W _) h'; omega
       · have h'' : al cfg.W n.chain.length < w := by omega
         have := aligned_lt cfg.W _ w (al_mod cfg.W _) hw h''; omega
-    obtain ⟨a, ha⟩ := h.idx.pers_avail w hw hcomplete
+    obtain ⟨a, ha⟩ := h.idx.pers_avail w hw hfw hcomplete
     obtain ⟨h1, _, _, h4⟩ := h.idx.pers_keys w a (lookup_mem _ _ _ ha)
     exact ⟨a, ha, h1, h4⟩
 
@@ -331,17 +287,17 @@ theorem inv_servable (cfg : Cfg) (hW : 1 ≤ cfg.W) (n : Node) (h : Inv cfg n) (
 theorem store_inv (cfg : Cfg) (hW : 1 ≤ cfg.W) (n : Node) (blk : Block) (h : Inv cfg n)
     (hblk : ∀ it ∈ blk.items, it ∈ blk.bloom) (hb : n.chain.length + 1 < 2 ^ 64) :
     (store cfg n blk).2 = none ∧ Inv cfg (store cfg n blk).1 := by
-  have hidx : IdxInv cfg.W (n.chain ++ [blk]) (n.chain.length + 1) n.chain.length n.running n.persisted := by
-    refine ⟨h.idx.from_eq, goodBelow_append _ _ _ _ _ h.idx.running (Nat.le_refl _), ?_, h.idx.pers_avail⟩
+  have hidx : IdxInv cfg.W (n.chain ++ [blk]) n.floor (n.chain.length + 1) n.chain.length n.running n.persisted := by
+    refine ⟨h.idx.from_eq, goodBelow_append _ _ _ _ _ _ h.idx.running (Nat.le_refl _), ?_, h.idx.pers_avail⟩
     intro w a hm
     obtain ⟨h1, h2, h3, h4⟩ := h.idx.pers_keys w a hm
-    exact ⟨h1, h2, by omega, good_append _ _ _ _ _ h4 h3⟩
+    exact ⟨h1, h2, by omega, good_append _ _ _ _ _ _ h4 h3⟩
   have hget : (n.chain ++ [blk])[n.chain.length]? = some blk := by simp
-  obtain ⟨r', p', hrun, hi'⟩ := insertRun_step cfg.W hW (n.chain ++ [blk]) (n.chain.length + 1) n.chain.length
+  obtain ⟨r', p', hrun, hi'⟩ := insertRun_step cfg.W hW (n.chain ++ [blk]) n.floor (n.chain.length + 1) n.chain.length
     n.running n.persisted blk hidx (by omega) hget
   unfold store
   simp only [hrun]
-  refine ⟨by first | rfl | trivial, ?_, ?_, ?_, ?_, ?_, ?_⟩
+  refine ⟨by first | rfl | trivial, ?_, ?_, ?_, ?_, ?_, ?_, ?_⟩
   · intro x hx
     simp only [List.mem_append, List.mem_singleton] at hx
     rcases hx with hx | hx
@@ -349,25 +305,32 @@ theorem store_inv (cfg : Cfg) (hW : 1 ≤ cfg.W) (n : Node) (blk : Block) (h : I
     · subst hx; exact hblk
   · simpa using hb
   · simp
+  · rcases h.floor_lt with h' | h'
+    · exact Or.inl h'
+    · right; show n.floor < (n.chain ++ [blk]).length; simp; omega
   · simpa using hi'
   · intro w a hm
     obtain ⟨h1, h2, h3⟩ := h.cache w a hm
-    exact ⟨h1, by simp; omega, good_append _ _ _ _ _ h3 h2⟩
+    exact ⟨h1, by simp; omega, good_append _ _ _ _ _ _ h3 h2⟩
   · intro a nx hs
     obtain ⟨h1, h2, h3⟩ := h.snap a nx hs
-    exact ⟨by simp; omega, h2, goodBelow_append _ _ _ _ _ h3 h1⟩
+    exact ⟨by simp; omega, h2, goodBelow_append _ _ _ _ _ _ h3 h1⟩
 
 /-! ### revert -/
 
-/-- What the code as it is needs in order to keep the invariant across `RevertHead`; every
-conjunct is trivially true once the corresponding repair is in (`fix… = true`). -/
+/-- What the code before the repairs needs in order to keep the invariant across `RevertHead`;
+every conjunct is trivially true once the corresponding repair is in (`fix… = true`). -/
 def RevertGuard (cfg : Cfg) (n : Node) : Prop :=
   (cfg.fixCache = true ∨ n.chain.length % cfg.W ≠ 0 ∨ ∀ a, (n.chain.length - cfg.W, a) ∉ n.cache) ∧
   (cfg.fixSnap = true ∨ ∀ a nx, n.snapshot = some (a, nx) → nx < n.chain.length) ∧
   (cfg.fixPersist = true ∨ n.chain.length % cfg.W ≠ 0)
 
+/-- The new head stays at or above the retention floor (a pruning node cannot reorganise below
+what it retains). -/
+def RevertAboveFloor (n : Node) : Prop := n.floor = 0 ∨ n.floor + 1 < n.chain.length
+
 theorem revert_inv (cfg : Cfg) (hW : 1 ≤ cfg.W) (n : Node) (h : Inv cfg n) (hne : n.chain ≠ [])
-    (hg : RevertGuard cfg n) : (revert cfg n).2 = none ∧ Inv cfg (revert cfg n).1 := by
+    (hg : RevertGuard cfg n) (hfl : RevertAboveFloor n) : (revert cfg n).2 = none ∧ Inv cfg (revert cfg n).1 := by
   obtain ⟨hgc, hgs, hgp⟩ := hg
   have hlen : 1 ≤ n.chain.length := by
     cases hc : n.chain with
@@ -378,6 +341,9 @@ theorem revert_inv (cfg : Cfg) (hW : 1 ≤ cfg.W) (n : Node) (h : Inv cfg n) (hn
     cases hc : n.chain with
     | nil => exact absurd hc hne
     | cons _ _ => rfl
+  have hflo : ¬ n.chain.length - 1 < n.floor := by
+    rcases hfl with h' | h' <;> omega
+  have hflo' : n.floor ≤ n.chain.length - 1 := by omega
   have hcur : pred64 n.next = n.chain.length - 1 := by
     rw [h.next_eq]; unfold pred64
     have : (n.chain.length == 0) = false := by simp; omega
@@ -400,9 +366,13 @@ theorem revert_inv (cfg : Cfg) (hW : 1 ≤ cfg.W) (n : Node) (h : Inv cfg n) (hn
       · have : n.chain.length - 1 ≠ al cfg.W n.chain.length - 1 := by omega
         simp [hm, this]
   have hlenD : n.chain.dropLast.length = n.chain.length - 1 := by simp
+  have hfloorD : n.floor = 0 ∨ n.floor < n.chain.dropLast.length := by
+    rcases hfl with h' | h'
+    · exact Or.inl h'
+    · right; rw [hlenD]; omega
   -- the parts of the invariant that do not depend on the branch
   have hsnap : ∀ a nx, (if cfg.fixSnap then none else n.snapshot) = some (a, nx) →
-      nx ≤ n.chain.dropLast.length ∧ a.from_ = al cfg.W nx ∧ GoodBelow n.chain.dropLast cfg.W a nx := by
+      nx ≤ n.chain.dropLast.length ∧ a.from_ = al cfg.W nx ∧ GoodBelow n.chain.dropLast cfg.W n.floor a nx := by
     intro a nx hs
     cases hf : cfg.fixSnap with
     | true => simp [hf] at hs
@@ -412,9 +382,9 @@ theorem revert_inv (cfg : Cfg) (hW : 1 ≤ cfg.W) (n : Node) (h : Inv cfg n) (hn
       rcases hgs with hgs | hgs
       · simp [hf] at hgs
       · have := hgs a nx hs
-        exact ⟨by omega, h2, goodBelow_dropLast _ _ _ _ h3⟩
+        exact ⟨by omega, h2, goodBelow_dropLast _ _ _ _ _ h3⟩
   unfold revert
-  simp only [hemp, Bool.false_eq_true, if_false, hcross]
+  simp only [hemp, Bool.false_eq_true, if_false, hflo, hcross]
   by_cases hm : n.chain.length % cfg.W = 0
   · -- the revert re-opens the previous window
     simp only [hm, decide_true, if_true]
@@ -423,7 +393,10 @@ theorem revert_inv (cfg : Cfg) (hW : 1 ≤ cfg.W) (n : Node) (h : Inv cfg n) (hn
       rw [hcur]; exact al_pred_cross cfg.W _ hW hm hlen
     rw [hal]
     have hwm : (n.chain.length - cfg.W) % cfg.W = 0 := by rw [sub_mod_self _ _ hge]; exact hm
-    obtain ⟨prev, hprev⟩ := h.idx.pers_avail (n.chain.length - cfg.W) hwm (by omega)
+    have hfw : al cfg.W n.floor ≤ n.chain.length - cfg.W := by
+      have := al_mono cfg.W _ _ hflo'
+      rw [al_pred_cross cfg.W _ hW hm hlen] at this; exact this
+    obtain ⟨prev, hprev⟩ := h.idx.pers_avail (n.chain.length - cfg.W) hwm hfw (by omega)
     obtain ⟨hp1, _, _, hp4⟩ := h.idx.pers_keys _ _ (lookup_mem _ _ _ hprev)
     simp only [hprev]
     have hin : prev.inRange cfg.W (pred64 n.next) = true := by
@@ -438,29 +411,29 @@ theorem revert_inv (cfg : Cfg) (hW : 1 ≤ cfg.W) (n : Node) (h : Inv cfg n) (hn
       · exact h'
       · exact absurd hm h'
     simp only [hfp, if_true]
-    refine ⟨by first | rfl | trivial, chainWF_dropLast _ h.wf, by simp; omega, by simp [hcur], ⟨?_, ?_, ?_, ?_⟩, ?_, hsnap⟩
+    refine ⟨by first | rfl | trivial, chainWF_dropLast _ h.wf, by simp; omega, by simp [hcur], hfloorD, ⟨?_, ?_, ?_, ?_⟩, ?_, hsnap⟩
     · show prev.from_ = al cfg.W n.chain.dropLast.length
       rw [hlenD, al_pred_cross cfg.W _ hW hm hlen, hp1]
-    · intro b x h1 h2 h3 hb it hit
+    · intro b x h1 h2 hfb h3 hb it hit
       obtain ⟨hb1, hb2⟩ := getElem?_dropLast_some _ _ _ hb
       have h1' : prev.from_ ≤ b := h1
       have h2' : b < prev.from_ + cfg.W := h2
       apply hct b it (by rw [hcur]; omega)
-      exact hp4 b x (by omega) (by omega) hb1 it hit
+      exact hp4 b x (by omega) (by omega) hfb hb1 it hit
     · intro w a hmem
       rw [mem_del_iff, mem_del_iff] at hmem
       obtain ⟨⟨hmem, _⟩, hw2⟩ := hmem
       obtain ⟨h1, h2, h3, h4⟩ := h.idx.pers_keys w a hmem
       have hw2' : w ≠ n.chain.length - cfg.W := hw2
-      refine ⟨h1, h2, ?_, good_dropLast _ _ _ _ h4⟩
+      refine ⟨h1, h2, ?_, good_dropLast _ _ _ _ _ h4⟩
       rw [hlenD]
       rcases Nat.lt_or_ge w (n.chain.length - cfg.W) with h' | h'
       · have := aligned_lt cfg.W w _ h2 hwm h'; omega
       · omega
-    · intro w hw hle
+    · intro w hw hfw' hle
       rw [hlenD] at hle
       rw [lookup_del _ _ _ (by omega), lookup_del _ _ _ (by rw [hfrom]; have := al_le cfg.W n.chain.length; omega)]
-      exact h.idx.pers_avail w hw (by omega)
+      exact h.idx.pers_avail w hw hfw' (by omega)
     · intro w a hmem
       cases hf : cfg.fixCache with
       | true => simp [hf] at hmem
@@ -471,7 +444,7 @@ theorem revert_inv (cfg : Cfg) (hW : 1 ≤ cfg.W) (n : Node) (h : Inv cfg n) (hn
         · simp [hf] at hgc
         · exact absurd hm hgc
         · have hw : w ≠ n.chain.length - cfg.W := fun e => hgc a (e ▸ hmem)
-          refine ⟨h1, ?_, good_dropLast _ _ _ _ h3⟩
+          refine ⟨h1, ?_, good_dropLast _ _ _ _ _ h3⟩
           rw [hlenD]
           rcases Nat.lt_or_ge w (n.chain.length - cfg.W) with h' | h'
           · have := aligned_lt cfg.W w _ h1 hwm h'; omega
@@ -493,36 +466,68 @@ theorem revert_inv (cfg : Cfg) (hW : 1 ≤ cfg.W) (n : Node) (h : Inv cfg n) (hn
       · exfalso
         have : n.chain.length = w + cfg.W := by omega
         rw [this, Nat.add_mod_right] at hm; exact hm hw
-    refine ⟨by first | rfl | trivial, chainWF_dropLast _ h.wf, by simp; omega, by simp [hcur], ⟨?_, ?_, ?_, ?_⟩, ?_, hsnap⟩
+    refine ⟨by first | rfl | trivial, chainWF_dropLast _ h.wf, by simp; omega, by simp [hcur], hfloorD, ⟨?_, ?_, ?_, ?_⟩, ?_, hsnap⟩
     · show n.running.from_ = al cfg.W n.chain.dropLast.length
       rw [hlenD, al_pred_same cfg.W _ hW hm, hfrom]
-    · intro b x h1 h2 h3 hb it hit
+    · intro b x h1 h2 hfb h3 hb it hit
       obtain ⟨hb1, hb2⟩ := getElem?_dropLast_some _ _ _ hb
       apply hct b it (by rw [hcur]; omega)
-      exact h.idx.running b x h1 h2 (by omega) hb1 it hit
+      exact h.idx.running b x h1 h2 hfb (by omega) hb1 it hit
     · intro w a hmem
       obtain ⟨h1, h2, h3, h4⟩ := h.idx.pers_keys w a hmem
-      exact ⟨h1, h2, by rw [hlenD]; exact hcomp w h2 h3, good_dropLast _ _ _ _ h4⟩
-    · intro w hw hle
+      exact ⟨h1, h2, by rw [hlenD]; exact hcomp w h2 h3, good_dropLast _ _ _ _ _ h4⟩
+    · intro w hw hfw' hle
       rw [hlenD] at hle
-      exact h.idx.pers_avail w hw (by omega)
+      exact h.idx.pers_avail w hw hfw' (by omega)
     · intro w a hmem
       cases hf : cfg.fixCache with
       | true => simp [hf] at hmem
       | false =>
         simp only [hf, Bool.false_eq_true, if_false] at hmem
         obtain ⟨h1, h2, h3⟩ := h.cache w a hmem
-        exact ⟨h1, by rw [hlenD]; exact hcomp w h1 h2, good_dropLast _ _ _ _ h3⟩
+        exact ⟨h1, by rw [hlenD]; exact hcomp w h1 h2, good_dropLast _ _ _ _ _ h3⟩
 
 /-! ### snapshot write -/
 
 theorem snap_inv (cfg : Cfg) (n : Node) (h : Inv cfg n) : Inv cfg (snap n) := by
-  refine ⟨h.wf, h.bound, h.next_eq, h.idx, h.cache, ?_⟩
+  refine ⟨h.wf, h.bound, h.next_eq, h.floor_lt, h.idx, h.cache, ?_⟩
   intro a nx hs
   simp only [snap, Option.some.injEq, Prod.mk.injEq] at hs
   obtain ⟨rfl, rfl⟩ := hs
   rw [h.next_eq]
   exact ⟨Nat.le_refl _, h.idx.from_eq, h.idx.running⟩
+
+/-! ### pruning -/
+
+theorem prune_inv (cfg : Cfg) (hW : 1 ≤ cfg.W) (n : Node) (k : Nat) (h : Inv cfg n) : Inv cfg (prune cfg n k) := by
+  unfold prune
+  split
+  · exact h
+  · rename_i hc
+    simp only [Bool.or_eq_true, decide_eq_true_eq, not_or, Nat.not_le] at hc
+    obtain ⟨⟨_, hk1⟩, hk2⟩ := hc
+    have hmono : n.floor ≤ k := by omega
+    have halk : al cfg.W n.floor ≤ al cfg.W k := al_mono _ _ _ hmono
+    refine ⟨h.wf, h.bound, h.next_eq, Or.inr hk2, ⟨h.idx.from_eq, ?_, ?_, ?_⟩, ?_, ?_⟩
+    · exact goodBelow_floor_mono _ _ _ _ _ _ h.idx.running hmono
+    · intro w a hm
+      obtain ⟨h1, h2, h3, h4⟩ := h.idx.pers_keys w a (List.mem_filter.mp hm).1
+      exact ⟨h1, h2, h3, good_floor_mono _ _ _ _ _ _ h4 hmono⟩
+    · intro w hw (hfw : al cfg.W k ≤ w) (hle : w + cfg.W ≤ n.chain.length)
+      have hq : (fun x : Nat => !decide (x < k - k % cfg.W)) w = true := by
+        have h' : k - k % cfg.W ≤ w := hfw
+        simp only [Bool.not_eq_true', decide_eq_false_iff_not, Nat.not_lt]
+        exact h'
+      have := lookup_filter_key n.persisted (fun x => !decide (x < k - k % cfg.W)) w hq
+      show ∃ a, (n.persisted.filter (fun x => !decide (x.1 < k - k % cfg.W))).lookup w = some a
+      rw [this]
+      exact h.idx.pers_avail w hw (by omega) hle
+    · intro w a hm
+      obtain ⟨h1, h2, h3⟩ := h.cache w a hm
+      exact ⟨h1, h2, good_floor_mono _ _ _ _ _ _ h3 hmono⟩
+    · intro a nx hs
+      obtain ⟨h1, h2, h3⟩ := h.snap a nx hs
+      exact ⟨h1, h2, goodBelow_floor_mono _ _ _ _ _ _ h3 hmono⟩
 
 /-! ### queries only move persisted windows into the cache -/
 
@@ -573,31 +578,34 @@ theorem scanWindows_cacheFrom (cfg : Cfg) (n : Node) (f : Filter) (chunk limit s
       obtain ⟨a, cache'⟩ := r
       have h1 := loadWindow_cacheFrom cfg n cache w a cache' hl
       simp only
-      cases scanCands f n.chain chunk limit (windowCands f a (max start w) (min to (w + (cfg.W - 1)))) acc skip sc with
+      cases scanCands f n.chain n.floor chunk limit (windowCands f a (max start w) (min to (w + (cfg.W - 1)))) acc skip sc with
       | cont acc' skip' sc' => exact cacheFrom_trans n _ _ _ h1 (ih cache' acc' skip' sc')
       | stop acc' tok => exact h1
       | fail e => exact h1
 
+theorem canonical_cacheFrom (cfg : Cfg) (n : Node) (f : Filter) (chunk limit s t k : Nat) :
+    CacheFrom n n.cache (canonical cfg n f chunk limit s t k).2 := by
+  unfold canonical
+  split
+  · exact fun x hx => Or.inl hx
+  · exact scanWindows_cacheFrom cfg n f chunk limit s t _ n.cache [] k 0
+
 theorem events_cacheFrom (cfg : Cfg) (n : Node) (f : Filter) (fromB toB : Nat) (tok : Option Token) (chunk limit : Nat) :
     CacheFrom n n.cache (events cfg n f fromB toB tok chunk limit).2 := by
   rw [events_eq]
-  have hcan : ∀ s t k, CacheFrom n n.cache (canonical cfg n f chunk limit s t k).2 := by
-    intro s t k
-    unfold canonical
-    split
-    · exact fun x hx => Or.inl hx
-    · exact scanWindows_cacheFrom cfg n f chunk limit s t _ n.cache [] k 0
   split
   · exact fun x hx => Or.inl hx
   · split
-    · exact hcan _ _ _
+    · exact fun x hx => Or.inl hx
     · split
-      · exact hcan _ _ _
-      · exact fun x hx => Or.inl hx
+      · exact canonical_cacheFrom cfg n f chunk limit _ _ _
+      · split
+        · exact canonical_cacheFrom cfg n f chunk limit _ _ _
+        · exact fun x hx => Or.inl hx
 
 theorem query_inv (cfg : Cfg) (n : Node) (f : Filter) (fromB toB : Nat) (tok : Option Token) (chunk limit : Nat)
     (h : Inv cfg n) : Inv cfg (query cfg n f fromB toB tok chunk limit).1 := by
-  refine ⟨h.wf, h.bound, h.next_eq, h.idx, ?_, h.snap⟩
+  refine ⟨h.wf, h.bound, h.next_eq, h.floor_lt, h.idx, ?_, h.snap⟩
   intro w a hm
   rcases events_cacheFrom cfg n f fromB toB tok chunk limit (w, a) hm with h' | h'
   · exact h.cache w a h'
@@ -606,8 +614,9 @@ theorem query_inv (cfg : Cfg) (n : Node) (f : Filter) (fromB toB : Nat) (tok : O
 
 /-! ### restart -/
 
-theorem findAnchor_some (W : Nat) (p : WinMap) : ∀ (k w : Nat), findAnchor W p k = some w →
-    ∃ j, j ≤ k ∧ w = j * W ∧ (p.lookup w).isSome = true ∧ ∀ j', j < j' → j' ≤ k → p.lookup (j' * W) = none := by
+theorem findAnchor_some (W : Nat) (p : WinMap) (kmin : Nat) : ∀ (k w : Nat), findAnchor W p kmin k = some w →
+    ∃ j, j ≤ k ∧ w = j * W ∧ (p.lookup w).isSome = true ∧ (kmin ≤ k → kmin ≤ j) ∧
+      ∀ j', j < j' → j' ≤ k → p.lookup (j' * W) = none := by
   intro k
   induction k with
   | zero =>
@@ -616,7 +625,7 @@ theorem findAnchor_some (W : Nat) (p : WinMap) : ∀ (k w : Nat), findAnchor W p
     split at h
     · rename_i hs
       cases h
-      exact ⟨0, Nat.le_refl _, by simp, hs, fun j' h1 h2 => by omega⟩
+      exact ⟨0, Nat.le_refl _, by simp, hs, fun h => h, fun j' h1 h2 => by omega⟩
     · cases h
   | succ k ih =>
     intro w h
@@ -624,24 +633,27 @@ theorem findAnchor_some (W : Nat) (p : WinMap) : ∀ (k w : Nat), findAnchor W p
     split at h
     · rename_i hs
       cases h
-      exact ⟨k + 1, Nat.le_refl _, rfl, hs, fun j' h1 h2 => by omega⟩
+      exact ⟨k + 1, Nat.le_refl _, rfl, hs, fun h => h, fun j' h1 h2 => by omega⟩
     · rename_i hs
-      obtain ⟨j, h1, h2, h3, h4⟩ := ih w h
-      refine ⟨j, by omega, h2, h3, ?_⟩
-      intro j' hj1 hj2
-      by_cases hj : j' = k + 1
-      · subst hj
-        cases hl : p.lookup ((k + 1) * W) with
-        | none => rfl
-        | some a => simp [hl] at hs
-      · exact h4 j' hj1 (by omega)
+      split at h
+      · cases h
+      · rename_i hk
+        obtain ⟨j, h1, h2, h3, h5, h4⟩ := ih w h
+        refine ⟨j, by omega, h2, h3, fun _ => h5 (by omega), ?_⟩
+        intro j' hj1 hj2
+        by_cases hj : j' = k + 1
+        · subst hj
+          cases hl : p.lookup ((k + 1) * W) with
+          | none => rfl
+          | some a => simp [hl] at hs
+        · exact h4 j' hj1 (by omega)
 
-theorem findAnchor_none (W : Nat) (p : WinMap) : ∀ (k : Nat), findAnchor W p k = none →
-    ∀ j', j' ≤ k → p.lookup (j' * W) = none := by
+theorem findAnchor_none (W : Nat) (p : WinMap) (kmin : Nat) : ∀ (k : Nat), findAnchor W p kmin k = none →
+    ∀ j', j' ≤ k → kmin ≤ j' → p.lookup (j' * W) = none := by
   intro k
   induction k with
   | zero =>
-    intro h j' hj
+    intro h j' hj _
     unfold findAnchor at h
     split at h
     · cases h
@@ -652,118 +664,199 @@ theorem findAnchor_none (W : Nat) (p : WinMap) : ∀ (k : Nat), findAnchor W p k
       | none => rfl
       | some a => simp at hl; simp [hl] at hs
   | succ k ih =>
-    intro h j' hj
+    intro h j' hj hkm
     unfold findAnchor at h
     split at h
     · cases h
     · rename_i hs
-      by_cases hj2 : j' = k + 1
-      · subst hj2
+      have hnone : p.lookup ((k + 1) * W) = none := by
         cases hl : p.lookup ((k + 1) * W) with
         | none => rfl
         | some a => simp [hl] at hs
-      · exact ih h j' (by omega)
+      split at h
+      · rename_i hk
+        have : j' = k + 1 := by omega
+        subst this; exact hnone
+      · by_cases hj2 : j' = k + 1
+        · subst hj2; exact hnone
+        · exact ih h j' (by omega) hkm
 
-theorem rebuild_cont (W : Nat) (hW : 1 ≤ W) (p : WinMap) (len : Nat) (hlen : 1 ≤ len)
+theorem rebuild_cont (W : Nat) (hW : 1 ≤ W) (p : WinMap) (floor len : Nat) (hlen : 1 ≤ len) (hfl : floor ≤ len - 1)
     (hk : ∀ w a, (w, a) ∈ p → w % W = 0 ∧ w + W ≤ len)
-    (ha : ∀ w, w % W = 0 → w + W ≤ len → ∃ a, p.lookup w = some a) :
-    continueFrom W (findAnchor W p ((len - 1) / W)) = al W len := by
-  cases hf : findAnchor W p ((len - 1) / W) with
+    (ha : ∀ w, w % W = 0 → al W floor ≤ w → w + W ≤ len → ∃ a, p.lookup w = some a) :
+    windowStart W floor (findAnchor W p (floor / W) ((len - 1) / W)) = al W len ∧
+    floor ≤ continueFrom W floor (findAnchor W p (floor / W) ((len - 1) / W)) ∧
+    continueFrom W floor (findAnchor W p (floor / W) ((len - 1) / W)) ≤ len ∧
+    al W (continueFrom W floor (findAnchor W p (floor / W) ((len - 1) / W))) = al W len ∧
+    (continueFrom W floor (findAnchor W p (floor / W) ((len - 1) / W)) = al W len ∨
+      continueFrom W floor (findAnchor W p (floor / W) ((len - 1) / W)) = floor) := by
+  have hkmin : floor / W ≤ (len - 1) / W := Nat.div_le_div_right hfl
+  have hall := al_le W len
+  have hltl := lt_al_add W len hW
+  cases hf : findAnchor W p (floor / W) ((len - 1) / W) with
   | none =>
-    simp only [continueFrom]
-    have h0 := findAnchor_none W p _ hf 0 (Nat.zero_le _)
-    simp only [Nat.zero_mul] at h0
-    have : len < W := by
-      rcases Nat.lt_or_ge len W with h | h
-      · exact h
-      · obtain ⟨a, ha'⟩ := ha 0 (by simp) (by omega)
-        rw [h0] at ha'; cases ha'
-    exact (al_unique W 0 len (by simp) (Nat.zero_le _) (by omega)).symm
+    simp only [continueFrom, windowStart]
+    have hno := findAnchor_none W p _ _ hf
+    have hmono : al W floor ≤ al W len := al_mono W _ _ (by omega)
+    have heq : al W floor = al W len := by
+      rcases Nat.lt_or_ge (al W floor) (al W len) with h | h
+      · exfalso
+        have hge := aligned_lt W _ _ (al_mod W floor) (al_mod W len) h
+        -- the window just below the head's window is complete and at or above the floor's
+        have hwm : (al W len - W) % W = 0 := by rw [sub_mod_self _ _ (by omega)]; exact al_mod W len
+        obtain ⟨a, ha'⟩ := ha (al W len - W) hwm (by omega) (by omega)
+        have hj : al W len - W = (len / W - 1) * W := by
+          rw [Nat.sub_mul, ← al_eq_div_mul]; simp
+        have hq : 1 ≤ len / W := by
+          have := al_eq_div_mul W len
+          rcases Nat.eq_zero_or_pos (len / W) with h0 | h0
+          · rw [h0] at this; simp at this; omega
+          · exact h0
+        have h1 : len / W - 1 ≤ (len - 1) / W := by
+          rw [Nat.le_div_iff_mul_le (by omega), ← hj]; omega
+        have h2 : floor / W ≤ len / W - 1 := by
+          have e := al_eq_div_mul W floor
+          have : floor / W * W ≤ (len / W - 1) * W := by rw [← e, ← hj]; omega
+          exact Nat.le_of_mul_le_mul_right this (by omega)
+        have := hno (len / W - 1) h1 h2
+        rw [← hj, ha'] at this; cases this
+      · omega
+    have hfl2 : floor < al W floor + W := lt_al_add W floor hW
+    refine ⟨heq, Nat.le_refl _, by omega, heq, Or.inr (by first | rfl | trivial)⟩
   | some w =>
-    simp only [continueFrom]
-    obtain ⟨j, hj, hw, hs, hno⟩ := findAnchor_some W p _ w hf
+    simp only [continueFrom, windowStart]
+    obtain ⟨j, hj, hw, hs, hjm, hno⟩ := findAnchor_some W p _ _ w hf
     obtain ⟨a, hla⟩ : ∃ a, p.lookup w = some a := by
       cases hl : p.lookup w with
       | none => simp [hl] at hs
       | some a => exact ⟨a, rfl⟩
     obtain ⟨hw0, hwl⟩ := hk w a (lookup_mem _ _ _ hla)
-    symm
-    apply al_unique W (w + W) len (by rw [Nat.add_mod_right]; exact hw0) hwl
-    rcases Nat.lt_or_ge len (w + W + W) with h | h
-    · exact h
-    · exfalso
-      have hj1 : j + 1 ≤ (len - 1) / W := by
-        rw [Nat.le_div_iff_mul_le (by omega), Nat.succ_mul, ← hw]; omega
-      have hnone := hno (j + 1) (by omega) hj1
-      rw [Nat.succ_mul, ← hw] at hnone
-      obtain ⟨a', ha'⟩ := ha (w + W) (by rw [Nat.add_mod_right]; exact hw0) h
-      rw [hnone] at ha'; cases ha'
+    have hwfl : al W floor ≤ w := by
+      have := hjm hkmin
+      rw [al_eq_div_mul, hw]; exact Nat.mul_le_mul_right _ this
+    have hal : al W len = w + W := by
+      apply al_unique W (w + W) len (by rw [Nat.add_mod_right]; exact hw0) hwl
+      rcases Nat.lt_or_ge len (w + W + W) with h | h
+      · exact h
+      · exfalso
+        have hj1 : j + 1 ≤ (len - 1) / W := by
+          rw [Nat.le_div_iff_mul_le (by omega), Nat.succ_mul, ← hw]; omega
+        have hnone := hno (j + 1) (by omega) hj1
+        rw [Nat.succ_mul, ← hw] at hnone
+        obtain ⟨a', ha'⟩ := ha (w + W) (by rw [Nat.add_mod_right]; exact hw0) (by omega) h
+        rw [hnone] at ha'; cases ha'
+    have hfl2 : floor < al W floor + W := lt_al_add W floor hW
+    refine ⟨hal.symm, by omega, hwl, ?_, Or.inl hal.symm⟩
+    rw [hal]; exact al_eq_self W _ (by rw [Nat.add_mod_right]; exact hw0)
+
+/-- The initialiser succeeds on every state that satisfies the invariant and re-establishes its
+index part. -/
+theorem initRunning_spec (cfg : Cfg) (hW : 1 ≤ cfg.W) (n : Node) (h : Inv cfg n) :
+    ∃ r p, initRunning cfg n = .ok (r, n.chain.length, p) ∧
+      IdxInv cfg.W n.chain n.floor n.chain.length n.chain.length r p := by
+  unfold initRunning
+  split
+  · rename_i h0
+    refine ⟨Agg.fresh 0, n.persisted, by rw [h0], ?_⟩
+    refine ⟨by simp [Agg.fresh, al, h0], ?_, h.idx.pers_keys, h.idx.pers_avail⟩
+    intro b _ _ _ _ h3 _ _ _; omega
+  · rename_i latest hl
+    have hflo : n.floor ≤ latest := by
+      rcases h.floor_lt with h' | h' <;> omega
+    have hreb : ∃ r p, rebuild cfg n latest = .ok (r, n.chain.length, p) ∧
+        IdxInv cfg.W n.chain n.floor n.chain.length n.chain.length r p := by
+      unfold rebuild
+      dsimp only
+      have hc := rebuild_cont cfg.W hW n.persisted n.floor n.chain.length (by omega) (by omega)
+        (fun w a hm => let ⟨_, h2, h3, _⟩ := h.idx.pers_keys w a hm; ⟨h2, h3⟩) h.idx.pers_avail
+      have e : (n.chain.length - 1) / cfg.W = latest / cfg.W := by rw [hl]; simp
+      rw [e] at hc
+      obtain ⟨hws, hc1, hc2, hc3, hc4⟩ := hc
+      generalize continueFrom cfg.W n.floor (findAnchor cfg.W n.persisted (n.floor / cfg.W) (latest / cfg.W)) = cont at *
+      simp only [hws]
+      have := fill_spec cfg.W hW n.chain n.floor n.chain.length (Nat.le_refl _) (latest + 1 - cont)
+        cont (Agg.fresh (al cfg.W n.chain.length)) cont n.persisted
+        (by omega) hc1
+        ⟨by simp [Agg.fresh, hc3],
+         (by
+          intro b _ h1 _ hfb h3 _ _ _
+          simp only [Agg.fresh] at h1
+          rcases hc4 with h' | h' <;> omega),
+         h.idx.pers_keys,
+         (fun w hw hfw hle' => h.idx.pers_avail w hw hfw (by omega))⟩
+        (fun _ => rfl)
+      exact this
+    cases hs : n.snapshot with
+    | none => simpa using hreb
+    | some sn =>
+      obtain ⟨inner, nx⟩ := sn
+      obtain ⟨h1, h2, h3⟩ := h.snap inner nx hs
+      simp only
+      by_cases hc1 : nx = latest + 1
+      · have : (nx == latest + 1) = true := by simpa using hc1
+        simp only [this, if_true]
+        refine ⟨inner, n.persisted, by rw [hc1, hl], ?_⟩
+        have hnx : nx = n.chain.length := by omega
+        exact ⟨by rw [h2, hnx], by rw [← hnx]; exact h3, h.idx.pers_keys, h.idx.pers_avail⟩
+      · have : (nx == latest + 1) = false := by simpa using hc1
+        simp only [this, Bool.false_eq_true, if_false]
+        by_cases hc2 : (decide (nx ≤ latest) && decide (latest ≤ inner.from_ + (cfg.W - 1))) = true
+        · simp only [hc2, if_true]
+          simp only [Bool.and_eq_true, decide_eq_true_eq] at hc2
+          have hj : al cfg.W (max nx n.floor) = al cfg.W nx := by
+            rcases Nat.le_total n.floor nx with h' | h'
+            · rw [Nat.max_eq_left h']
+            · rw [Nat.max_eq_right h']
+              have := al_le cfg.W nx
+              apply al_unique cfg.W _ _ (al_mod cfg.W nx) (by omega)
+              rw [← h2]; omega
+          have := fill_spec cfg.W hW n.chain n.floor n.chain.length (Nat.le_refl _) (latest + 1 - max nx n.floor)
+            (max nx n.floor) inner (max nx n.floor) n.persisted
+            (by have := Nat.le_max_left nx n.floor; have := Nat.max_le.mpr ⟨hc2.1, hflo⟩; omega)
+            (Nat.le_max_right _ _)
+            ⟨by rw [h2, hj],
+             (by
+              intro b x g1 g2 gf g3 gb it hit
+              rcases Nat.lt_or_ge b nx with g | g
+              · exact h3 b x g1 g2 gf g gb it hit
+              · exfalso
+                rcases Nat.le_total n.floor nx with h' | h'
+                · rw [Nat.max_eq_left h'] at g3; omega
+                · rw [Nat.max_eq_right h'] at g3; omega),
+             h.idx.pers_keys,
+             (fun w hw hfw hle' => h.idx.pers_avail w hw hfw (by
+               have := Nat.max_le.mpr ⟨hc2.1, hflo⟩; omega))⟩
+            (fun _ => rfl)
+          exact this
+        · simp only [hc2, Bool.false_eq_true, if_false]
+          exact hreb
 
 theorem restart_inv (cfg : Cfg) (hW : 1 ≤ cfg.W) (n : Node) (h : Inv cfg n) :
     (restart cfg n).2 = none ∧ Inv cfg (restart cfg n).1 := by
-  have key : ∃ r p, initRunning cfg n = .ok (r, n.chain.length, p) ∧
-      IdxInv cfg.W n.chain n.chain.length n.chain.length r p := by
-    unfold initRunning
-    split
-    · rename_i h0
-      refine ⟨Agg.fresh 0, n.persisted, by rw [h0], ?_⟩
-      refine ⟨by simp [Agg.fresh, al, h0], ?_, h.idx.pers_keys, h.idx.pers_avail⟩
-      intro b _ _ _ h3 _ _ _; omega
-    · rename_i latest hl
-      have hreb : ∃ r p, rebuild cfg n latest = .ok (r, n.chain.length, p) ∧
-          IdxInv cfg.W n.chain n.chain.length n.chain.length r p := by
-        unfold rebuild
-        have hc := rebuild_cont cfg.W hW n.persisted n.chain.length (by omega)
-          (fun w a hm => let ⟨_, h2, h3, _⟩ := h.idx.pers_keys w a hm; ⟨h2, h3⟩) h.idx.pers_avail
-        have e : (n.chain.length - 1) / cfg.W = latest / cfg.W := by rw [hl]; simp
-        rw [e] at hc
-        simp only [hc]
-        have hle := al_le cfg.W n.chain.length
-        have := fill_spec cfg.W hW n.chain n.chain.length (Nat.le_refl _) (latest + 1 - al cfg.W n.chain.length)
-          (al cfg.W n.chain.length) (Agg.fresh (al cfg.W n.chain.length)) (al cfg.W n.chain.length) n.persisted
-          (by omega)
-          ⟨by simp [Agg.fresh, al_eq_self cfg.W _ (al_mod cfg.W _)],
-           (by intro b _ h1 _ h3 _ _ _; simp only [Agg.fresh] at h1; omega),
-           h.idx.pers_keys,
-           (fun w hw hle' => h.idx.pers_avail w hw (by omega))⟩
-          (fun _ => rfl)
-        exact this
-      cases hs : n.snapshot with
-      | none => simpa using hreb
-      | some sn =>
-        obtain ⟨inner, nx⟩ := sn
-        obtain ⟨h1, h2, h3⟩ := h.snap inner nx hs
-        simp only
-        by_cases hc1 : nx = latest + 1
-        · have : (nx == latest + 1) = true := by simpa using hc1
-          simp only [this, if_true]
-          refine ⟨inner, n.persisted, by rw [hc1, hl], ?_⟩
-          have hnx : nx = n.chain.length := by omega
-          exact ⟨by rw [h2, hnx], by rw [← hnx]; exact h3, h.idx.pers_keys, h.idx.pers_avail⟩
-        · have : (nx == latest + 1) = false := by simpa using hc1
-          simp only [this, Bool.false_eq_true, if_false]
-          by_cases hc2 : (decide (nx ≤ latest) && decide (latest ≤ inner.from_ + (cfg.W - 1))) = true
-          · simp only [hc2, if_true]
-            have := fill_spec cfg.W hW n.chain n.chain.length (Nat.le_refl _) (latest + 1 - nx) nx inner nx n.persisted
-              (by omega)
-              ⟨h2, h3, h.idx.pers_keys, (fun w hw hle' => h.idx.pers_avail w hw (by omega))⟩
-              (fun _ => rfl)
-            exact this
-          · simp only [hc2, Bool.false_eq_true, if_false]
-            exact hreb
-  obtain ⟨r, p, hinit, hidx⟩ := key
+  obtain ⟨r, p, hinit, hidx⟩ := initRunning_spec cfg hW n h
   unfold restart
   simp only [hinit]
-  refine ⟨by first | rfl | trivial, h.wf, h.bound, rfl, hidx, ?_, h.snap⟩
+  refine ⟨by first | rfl | trivial, h.wf, h.bound, rfl, h.floor_lt, hidx, ?_, h.snap⟩
   intro w a hm; simp at hm
+
+/-- A reset of the in-memory filter (after a failed write) keeps the invariant. -/
+theorem reinit_inv (cfg : Cfg) (hW : 1 ≤ cfg.W) (n : Node) (h : Inv cfg n) : Inv cfg (reinit cfg n) := by
+  obtain ⟨r, p, hinit, hidx⟩ := initRunning_spec cfg hW n h
+  unfold reinit
+  simp only [hinit]
+  refine ⟨h.wf, h.bound, rfl, h.floor_lt, hidx, ?_, h.snap⟩
+  intro w a hm
+  obtain ⟨h1, h2, h3⟩ := h.cache w a hm
+  exact ⟨h1, h2, h3⟩
 
 /-! ### Histories -/
 
 /-- What a step needs: stored blocks carry a header bloom covering their events and heights fit
-`uint64`; a revert satisfies `RevertGuard` (nothing for the repaired code). -/
+`uint64`; a revert keeps the head at or above the retention floor and (for the code before the
+repairs only) satisfies `RevertGuard`. -/
 def StepOK (cfg : Cfg) (n : Node) : Op → Prop
   | .store blk => (∀ it ∈ blk.items, it ∈ blk.bloom) ∧ n.chain.length + 1 < 2 ^ 64
-  | .revert => RevertGuard cfg n
+  | .revert => RevertGuard cfg n ∧ RevertAboveFloor n
   | _ => True
 
 def HistOK (cfg : Cfg) : Node → List Op → Prop
@@ -776,12 +869,13 @@ theorem step_inv (cfg : Cfg) (hW : 1 ≤ cfg.W) (n : Node) (op : Op) (h : Inv cf
   | store blk => exact (store_inv cfg hW n blk h hok.1 hok.2).2
   | revert =>
     by_cases hne : n.chain = []
-    · have : (revert cfg n).1 = n := by simp [revert, hne]
-      simp only [step, this]; exact h
-    · exact (revert_inv cfg hW n h hne hok).2
+    · have : (revert cfg n).1 = reinit cfg n := by simp [revert, hne]
+      simp only [step, this]; exact reinit_inv cfg hW n h
+    · exact (revert_inv cfg hW n h hne hok.1 hok.2).2
   | snap => exact snap_inv cfg n h
   | restart => exact (restart_inv cfg hW n h).2
   | query f a b t c l => exact query_inv cfg n f a b t c l h
+  | prune k => exact prune_inv cfg hW n k h
 
 theorem run_inv (cfg : Cfg) (hW : 1 ≤ cfg.W) (ops : List Op) : ∀ (n : Node), Inv cfg n → HistOK cfg n ops →
     Inv cfg (run cfg n ops) := by
@@ -797,7 +891,7 @@ theorem step_no_error (cfg : Cfg) (hW : 1 ≤ cfg.W) (n : Node) (h : Inv cfg n) 
     (n.chain ≠ [] → StepOK cfg n .revert → (revert cfg n).2 = none) ∧
     (restart cfg n).2 = none :=
   ⟨fun blk hok => (store_inv cfg hW n blk h hok.1 hok.2).1,
-   fun hne hok => (revert_inv cfg hW n h hne hok).1,
+   fun hne hok => (revert_inv cfg hW n h hne hok.1 hok.2).1,
    (restart_inv cfg hW n h).1⟩
 
 end Juno.C09
